@@ -66,13 +66,8 @@ def locate(rows, line, behs):
     return idx, (behs[idx] if idx is not None else None)
 
 
-def system_level(ctx):
-    """real push + pull replications (rest package); hook H6 events validated against the same spec."""
-    raw = os.path.join(ctx.scratch, "c17-sys-raw.ndjson")
-    rc, out = go_test(ctx, "rest", "^TestVerif_C17_System$", ["harness/rest/c17_system_test.go"], env={"VERIF_TRACE_OUT": raw}, timeout=900)
-    if rc != 0 or not os.path.exists(raw):
-        raise Inconclusive("C17 system harness failed:\n" + harness_failure(out))
-    evs = read_ndjson(raw)
+def convert_hook_events(evs):
+    """hook H6 events (grouped per checkpointer instance, rank-compressed) -> Trace_Checkpointer lines"""
     objs = {}
     for e in evs:
         objs.setdefault(e["obj"], []).append(e)
@@ -98,23 +93,67 @@ def system_level(ctx):
                 r = rk(e["ret"])
                 lines.append({"a": "Tick", "ret": r[0] if r else [], "E": rk(e["E"]), "P": sorted(rk(e["P"]))})
                 nticks += 1 if r else 0
-    if nticks == 0:
-        raise Inconclusive("system-level run produced no checkpoint (hook H6 not firing?)")
-    tr = os.path.join(ctx.scratch, "c17-sys.ndjson")
+    return lines, ninst, nticks
+
+
+def validate_system_trace(ctx, lines, ninst, label):
+    tr = os.path.join(ctx.scratch, "c17-%s.ndjson" % label)
     write_ndjson(tr, lines)
     ctx.cov["evaluations"] += ninst
     ctx.cov["distinct_nontrivial"] += ninst
-    ctx.cov["system_level"] = {"checkpointer_instances": ninst, "events": len(lines), "ticks_with_checkpoint": nticks}
-    vp = validate(ctx, SPEC, "Trace_Checkpointer", "Trace_Checkpointer_P.cfg", tr, tag="sysP")
+    vp = validate(ctx, SPEC, "Trace_Checkpointer", "Trace_Checkpointer_P.cfg", tr, tag=label + "P")
     if vp.inv:
-        report_violation(ctx, "system:%s" % vp.inv, "real replication run: checkpointer breaks %s at event %s" % (vp.inv, vp.line),
+        report_violation(ctx, "%s:%s" % (label, vp.inv), "real replication run (%s): checkpointer breaks %s at event %s" % (label, vp.inv, vp.line),
                          {"invariant": vp.inv, "events": lines[max(0, (vp.line or 1) - 12):(vp.line or 1)], "state": (vp.state or {}).get("_txt")})
         return
     if not vp.accepted:
-        raise Inconclusive("system trace: pass P stopped at line %s of %s\n%s" % (vp.line, vp.total, vp.out[-1500:]))
-    vc = validate(ctx, SPEC, "Trace_Checkpointer", "Trace_Checkpointer_C.cfg", tr, tag="sysC")
+        raise Inconclusive("%s trace: pass P stopped at line %s of %s\n%s" % (label, vp.line, vp.total, vp.out[-1500:]))
+    vc = validate(ctx, SPEC, "Trace_Checkpointer", "Trace_Checkpointer_C.cfg", tr, tag=label + "C")
     if vc.inv or not vc.accepted:
         ctx.cov["nonconformance"] += 1
-        ctx.notes.append("system trace pass C rejected at line %s (%s)" % (vc.line, vc.inv))
+        ctx.notes.append("%s trace pass C rejected at line %s (%s)" % (label, vc.line, vc.inv))
     else:
         ctx.cov["traces_validated_against_impl"] += ninst
+
+
+def system_level(ctx):
+    """real push + pull replications (rest package); hook H6 events validated against the same spec."""
+    raw = os.path.join(ctx.scratch, "c17-sys-raw.ndjson")
+    rc, out = go_test(ctx, "rest", "^TestVerif_C17_System$", ["harness/rest/c17_system_test.go"], env={"VERIF_TRACE_OUT": raw}, timeout=900)
+    if rc != 0 or not os.path.exists(raw):
+        raise Inconclusive("C17 system harness failed:\n" + harness_failure(out))
+    lines, ninst, nticks = convert_hook_events(read_ndjson(raw))
+    if nticks == 0:
+        raise Inconclusive("system-level run produced no checkpoint (hook H6 not firing?)")
+    ctx.cov["system_level"] = {"checkpointer_instances": ninst, "events": len(lines), "ticks_with_checkpoint": nticks}
+    validate_system_trace(ctx, lines, ninst, "system")
+    if not ctx.quick():
+        existing_tests(ctx)
+
+
+EXISTING = "^(TestActiveReplicatorPushBasic|TestActiveReplicatorPullBasic|TestActiveReplicatorPushFromCheckpoint|TestActiveReplicatorPullFromCheckpoint|" \
+           "TestActiveReplicatorPushFromCheckpointIgnored|TestActiveReplicatorPullFromCheckpointIgnored|TestActiveReplicatorPullConflict|TestActiveReplicatorPushAndPullConflict|" \
+           "TestActiveReplicatorPullTombstone|TestActiveReplicatorPullPurgeOnRemoval|TestActiveReplicatorPushBasicWithInsecureSkipVerifyEnabled|TestActiveReplicatorRecoverFromLocalFlush|" \
+           "TestActiveReplicatorPullOneshot|TestActiveReplicatorPushOneshot|TestActiveReplicatorReconnectOnStart|TestActiveReplicatorEdgeCheckpointNameCollisions)$"
+
+
+def existing_tests(ctx):
+    """CCF style: the repository's own replication tests run unmodified with -tags verif; the checkpointer events they
+    produce (hook H6 -> $VERIF_HOOK_TRACE) are validated against the same specification."""
+    import subprocess
+    hook = os.path.join(ctx.scratch, "c17-existing-hook.ndjson")
+    e = go_env()
+    e["VERIF_HOOK_TRACE"] = hook
+    e["CI"] = "1"   # the repository's own switch for longer wait windows
+    p = subprocess.run(["go", "test", "-tags", "verif", "-vet=off", "-count=1", "-timeout", "30m", "-run", EXISTING, "./rest/replicatortest"],
+                       cwd=REPO, env=e, stdout=subprocess.PIPE, stderr=subprocess.STDOUT, text=True, errors="replace")
+    ctx.cov["go_runs"].append({"pkg": "rest/replicatortest", "run": "existing replication tests with hooks on", "rc": p.returncode})
+    if not os.path.exists(hook):
+        ctx.notes.append("existing-tests run produced no hook trace (rc=%d)" % p.returncode)
+        return
+    evs = [x for x in read_ndjson(hook) if str(x.get("obj", "")).startswith("*db.Checkpointer")]
+    lines, ninst, nticks = convert_hook_events(evs)
+    ctx.cov["existing_tests"] = {"go_test_rc": p.returncode, "checkpointer_instances": ninst, "events": len(lines), "ticks_with_checkpoint": nticks}
+    log("  existing replication tests with hooks on: rc=%d, %d checkpointer instances, %d events, %d checkpoints" % (p.returncode, ninst, len(lines), nticks))
+    if ninst:
+        validate_system_trace(ctx, lines, ninst, "existing")
